@@ -79,6 +79,9 @@ type Entry interface {
 	validateMandatoryWithKeys(ctx context.Context, level int, attribute string, resultChan chan<- *types.ValidationResultEntry)
 	// getHighestPrecedenceValueOfBranch returns the highes Precedence Value (lowest Priority value) of the brach that starts at this Entry
 	getHighestPrecedenceValueOfBranch() int32
+	// getHighestPrecedenceValueOfBranchOld returns the highes Precedence Value of the branch as it was before the actual transaction
+	// (entries that are new do not count, entries that are flagged for deletion do)
+	getHighestPrecedenceValueOfBranchOld() int32
 	// GetSchema returns the *sdcpb.SchemaElem of the Entry
 	GetSchema() *sdcpb.SchemaElem
 	// IsRoot returns true if the Entry is the root of the tree
